@@ -37,7 +37,7 @@ inductive Kind where
   | dur (resNs : Nat)            -- `std::chrono::duration`, period in ns
   | vec
   | struct (name : String)       -- struct with a `PARAMS_TABLE`
-  | opaque (cxx : String)        -- member type without any `set_param` (never in a table)
+  | other (cxx : String)         -- member type without any `set_param` (never in a table)
   deriving DecidableEq, Repr, Inhabited
 
 /-- One `PARAMS_MEMBER(name, …)`: key string, member written, kind of the member. -/
@@ -86,7 +86,7 @@ inductive Leaf (R : Type) where
   /-- a vec that was resized to `n` and whose first `done.length` elements were stored before
       an element failed; the remaining elements are indeterminate (fresh Eigen storage). -/
   | vpart (n : Nat) (done : List R)
-  deriving Repr, Inhabited
+  deriving DecidableEq, Repr, Inhabited
 
 inductive Err where
   | invalidKey | indexed | badBool | badEnum
@@ -100,7 +100,7 @@ inductive NumRes (R : Type) where
   | ok (val : R) (rest : Str)    -- `ec == errc()`, `rest = [res.ptr, last)`
   | invalid                      -- `errc::invalid_argument`
   | range                        -- `errc::result_out_of_range`
-  deriving Repr, Inhabited
+  deriving DecidableEq, Repr, Inhabited
 
 abbrev Store (R : Type) := Path → Option (Leaf R)
 
@@ -231,7 +231,7 @@ def setLeaf (env : Env) (cfg : DurCfg) (parseReal : Str → NumRes R) (k : Kind)
     | (xs, none) => (some (.v xs), none)
     | (xs, some e) => (some (.vpart n xs), some e)
   | .struct _ => (none, some .unsupported)
-  | .opaque _ => (none, some .unsupported)
+  | .other _ => (none, some .unsupported)
   | .bool =>
     if !key.isEmpty then (none, some .indexed)
     else if value == "0".toList || value == "false".toList then (some (.b false), none)
@@ -278,6 +278,12 @@ def addressed (env : Env) : Nat → Kind → Path → Str → Option (Path × Ki
     | some e => addressed env fuel e.kind (path ++ [e.member]) (splitKey key).2
   | _ + 1, k, path, key => some (path, k, key)
 
+/-- Effect of a leaf setter on the store: the store (if any) happens before the throw. -/
+def applyLeaf (st : Store R) (p : Path) (w : Option (Leaf R) × Option Err) : Store R × Option Err :=
+  match w with
+  | (some l, e) => (st.set p l, e)
+  | (none, e) => (st, e)
+
 /-- `set_param(t, {full_key, key, value})` for an object of kind `k` located at `path`.
     Returns the store when the call returns or throws, and the exception if any. -/
 def setParam (env : Env) (cfg : DurCfg) (parseReal : Str → NumRes R) :
@@ -287,10 +293,7 @@ def setParam (env : Env) (cfg : DurCfg) (parseReal : Str → NumRes R) :
     match env.find name (splitKey key).1 with
     | none => (st, some .invalidKey)
     | some e => setParam env cfg parseReal fuel e.kind (path ++ [e.member]) (splitKey key).2 value st
-  | _ + 1, k, path, key, value, st =>
-    match setLeaf env cfg parseReal k key value with
-    | (some l, err) => (st.set path l, err)
-    | (none, err) => (st, err)
+  | _ + 1, k, path, key, value, st => applyLeaf st path (setLeaf env cfg parseReal k key value)
 
 /-- Does option `kv` carry the prefix `pfx`?  (`split_key(kv, '=')`, then `split_key(key)`.) -/
 def optPrefix (kv : Str) : Str := (splitKey (splitKey kv '=').1).1
